@@ -239,11 +239,11 @@ def _create_branch(pp, net, e, params):
     elif t == "circ_pump_mass":
         pp.create_circ_pump_const_mass_flow(net, a, b, p_flow_bar=q.get("p", 5.0),
                                             mdot_flow_kg_per_s=q.get("mdot", 0.5),
-                                            t_flow_k=q.get("t", 350.0), type=e.get("typ") or "auto",
+                                            t_flow_k=None if e.get("typ") == "p" else q.get("t", 350.0), type=e.get("typ") or "auto",
                                             in_service=svc, index=lab)
     elif t == "circ_pump_pressure":
         pp.create_circ_pump_const_pressure(net, a, b, p_flow_bar=q.get("p", 5.0),
-                                           plift_bar=q.get("plift", 1.0), t_flow_k=q.get("t", 350.0),
+                                           plift_bar=q.get("plift", 1.0), t_flow_k=None if e.get("typ") == "p" else q.get("t", 350.0),
                                            type=e.get("typ") or "auto", in_service=svc, index=lab)
     else:
         raise ValueError(t)
